@@ -21,6 +21,7 @@ type c11Params struct {
 	To     int     `json:"to"`
 	Mode   string  `json:"mode"` // increasing | equal | decreasing | random
 	Random bool    `json:"random"`
+	Many   bool    `json:"many,omitempty"`  // random DAGs of 60..150 commits, merge bases of up to 130 heads
 	Shape  [][]int `json:"shape,omitempty"` // fixed corpus
 }
 
@@ -102,6 +103,9 @@ func buildDag(parents [][]int, mode string, rng *rand.Rand) (*dag, error) {
 	}
 	return d, nil
 }
+
+// c11ManyTuples: how many tuples of 5..130 heads c11CheckDag tries on the DAG at hand (a worker runs one case at a time).
+var c11ManyTuples int
 
 func c11CheckDag(o *fw.Obs, d *dag, mode string, rng *rand.Rand, tupleBudget int) {
 	n := len(d.parents)
@@ -249,6 +253,35 @@ func c11CheckDag(o *fw.Obs, d *dag, mode string, rng *rand.Rand, tupleBudget int
 			return
 		}
 	}
+	// "any number of commits": tuples of 5..130 heads (around 32, 64 and 128 in particular)
+	for i := 0; i < c11ManyTuples; i++ {
+		k := []int{5, 8, 16, 31, 32, 33, 63, 64, 65, 66, 100, 127, 128, 129, 130}[rng.Intn(15)]
+		t := make([]int, k)
+		if rng.Intn(2) == 0 {
+			// all but the last few inputs from the descendants of one commit, the rest from anywhere
+			r := rng.Intn(n)
+			var desc []int
+			for x := 0; x < n; x++ {
+				if d.anc[x][r] {
+					desc = append(desc, x)
+				}
+			}
+			for j := range t {
+				t[j] = desc[rng.Intn(len(desc))]
+			}
+			for j := k - 1 - rng.Intn(3); j < k; j++ {
+				t[j] = rng.Intn(n)
+			}
+		} else {
+			for j := range t {
+				t[j] = rng.Intn(n)
+			}
+		}
+		o.Ev("merge_base_tuples_of_5_to_130_heads", 1)
+		if !check(t) {
+			return
+		}
+	}
 }
 
 func headsClass(k int) string {
@@ -309,8 +342,17 @@ func c11Run(c *fw.Case, env *fw.Env) *fw.Obs {
 			run(p.Shape, m, 30)
 		}
 	case p.Random:
+		defer func() { c11ManyTuples = 0 }()
 		for i := 0; i < 12; i++ {
 			n := 7 + rng.Intn(24)
+			c11ManyTuples = 0
+			if p.Many {
+				if i >= 3 {
+					break
+				}
+				n = 60 + rng.Intn(90)
+				c11ManyTuples = 60
+			}
 			parents := make([][]int, n)
 			for j := 1; j < n; j++ {
 				k := rng.Intn(4) // octopus merges allowed
@@ -366,7 +408,7 @@ func init() {
 	fw.Register(&fw.Property{
 		ID:          "C11",
 		Level:       "exploration",
-		Rule:        "all labelled commit DAGs with <=2 parents per commit for n<=5 (616 shapes; thorough n<=6, 9856 shapes) x timestamp modes {increasing, equal, decreasing, random with ties}: IsAncestorOf for all ordered pairs, three seeded programs of interrupted and resumed walks on CommitsQueue (pop-and-insert-parents, RemoveAncestors, PopUntil, Seen) against a pending-set model incl. the commit object handed out with every sum, a PopInsertParents walk from every head, SeekCommonAncestor for all ordered pairs and (n<=5) all ordered triples plus sampled 3/4-tuples, each compared with ancestor sets computed by the harness; plus seeded random DAGs to n=30 with octopus merges; distinct_nontrivial = distinct (shape, timestamp mode) with >=2 commits; exhaustive within the stated bound",
+		Rule:        "all labelled commit DAGs with <=2 parents per commit for n<=5 (616 shapes; thorough n<=6, 9856 shapes) x timestamp modes {increasing, equal, decreasing, random with ties}: IsAncestorOf for all ordered pairs, three seeded programs of interrupted and resumed walks on CommitsQueue (pop-and-insert-parents, RemoveAncestors, PopUntil, Seen) against a pending-set model incl. the commit object handed out with every sum, a PopInsertParents walk from every head, SeekCommonAncestor for all ordered pairs and (n<=5) all ordered triples plus sampled 3/4-tuples, each compared with ancestor sets computed by the harness; plus seeded random DAGs to n=30 with octopus merges, and DAGs of 60..150 commits with merge bases of 5..130 heads; distinct_nontrivial = distinct (shape, timestamp mode) with >=2 commits; exhaustive within the stated bound",
 		Assumptions: []string{"which common ancestor is chosen is free unless an input is itself a common ancestor"},
 		Gen: func(tier string, seed int64) []fw.Case {
 			l := fw.NewCaseList("C11", tier, seed)
@@ -400,6 +442,9 @@ func init() {
 			}
 			for i := 0; i < l.N(30, 2000); i++ {
 				l.Add("random", c11Params{Random: true}, 0)
+				if i%4 == 0 {
+					l.Add("random-many", c11Params{Random: true, Many: true}, 0)
+				}
 			}
 			return l.Cases
 		},
